@@ -69,6 +69,25 @@ token-level mutations alone, M23 was missed by them):
   M21 process_Invert = process_Not (`~(a == 1)` accepted)                                   caught (parse)
   M22 process_Subscript returns the value (`a[0] == 1` accepted as `a == 1`)                caught (parse)
   M23 keyword arguments of any()/all() ignored (`a in any([1], x=2)` accepted)              caught (parse)
+Round 4.  `names` is "a mapping": every names mapping of exec / run / rerun / subst / cq is handed over as one of dict
+(15%), defaultdict(int / list / lambda), Counter, dict subclass with __missing__, ChainMap, ChainMap over a defaultdict,
+MappingProxyType, a bare collections.abc.Mapping, OrderedDict, UserDict (7.5-8% each; hash of the command, the model sees
+the bindings): an unbound name is a NameError for all of them and the caller's mapping has the same keys afterwards
+(else NAMES-MUTATED).  CatalogQuery stream (6% of the cases = 476 per quick run, session commands
+  cqset <name> <kind> <v>   catalog[name] = a new index (80% same kind, other docids/contents; 20% another kind)
+  cqdel <name>              del catalog[name]           (model: cfg delindex)
+  cqindex <docid> <v>       catalog.index_doc
+  cq q|c <names> <src>      ONE CatalogQuery object (.query / __call__) answers the expression string; the model
+                            resolves the names in what a fresh parse_query of the string gives on the catalog of THAT
+                            moment (or parses itself against that moment's names when the fresh parse raises); the tree is
+                            executed on a reference catalog that went through the same changes):
+the same 1-2 strings before and after 2-5 changes of what their index names denote; measured quick seed 0: 2661 cq
+answers, 1624 changes (replace same kind 904, other kind 150, delete 439, index_doc 131), the answer to the same string
+changed after 978 of them.  Seeded C10_G (names[name] in try/except KeyError) and C10_H (CatalogQuery caches the parsed
+tree per string) were missed before and are caught now.  Further mutations of these classes (VERIF_REPO=/var/tmp/mut_s6/
+<X>, deleted afterwards), VIOLATION on quick seed 0:
+  D  _get_value: `result = names.get(name); if result is None: raise NameError` (a name bound to None; names=None)  caught
+  E  CatalogQuery.__init__ snapshots dict(catalog) and parses against the snapshot (replace / delete / re-add)      caught
 """
 import ast
 import copy
@@ -80,6 +99,7 @@ import re
 import sys
 import tokenize
 import warnings
+import zlib
 
 from lib.core import exc_name, idset
 
@@ -475,6 +495,129 @@ class Doc(object):
     pass
 
 
+# ---------------------------------------------------------------------------- names mappings
+# `names` is "a mapping": besides plain dicts the executions get mappings that fabricate a value on item access for a
+# missing key (defaultdict, Counter, dict subclass with __missing__, ChainMap over a defaultdict), read-only views and
+# a bare collections.abc.Mapping.  Which one is decided by a hash of the command, so the model (which sees the
+# bindings) needs no change.  An unbound name is a NameError for all of them, and the caller's mapping has the same
+# keys afterwards (else the answer gets the suffix NAMES-MUTATED).
+MAPKINDS = ("dict", "dict", "defaultdict-int", "defaultdict-list", "defaultdict-str", "counter", "dict-missing",
+            "chainmap", "chainmap-defaultdict", "proxy", "abc-mapping", "ordered", "userdict")
+
+
+def names_kind(toks, k):
+    return MAPKINDS[zlib.crc32((" ".join(map(str, toks)) + "#%d" % k).encode()) % len(MAPKINDS)]
+
+
+class _MissingDict(dict):
+    def __missing__(self, key):
+        return 3
+
+
+def wrap_names(kind, d):
+    """-> (mapping handed to execute(), the dict-like objects whose key sets must not change)"""
+    import collections
+    import collections.abc
+    import types
+    if kind == "defaultdict-int":
+        m = collections.defaultdict(int, d)
+    elif kind == "defaultdict-list":
+        m = collections.defaultdict(list, d)
+    elif kind == "defaultdict-str":
+        m = collections.defaultdict(lambda: "apple", d)
+    elif kind == "counter":
+        m = collections.Counter()
+        dict.update(m, d)
+    elif kind == "dict-missing":
+        m = _MissingDict(d)
+    elif kind == "chainmap":
+        inner = dict(d)
+        return collections.ChainMap({}, inner), [inner]
+    elif kind == "chainmap-defaultdict":
+        inner = collections.defaultdict(int, d)
+        m = collections.ChainMap({}, inner)
+        return m, [m, inner]
+    elif kind == "proxy":
+        inner = dict(d)
+        return types.MappingProxyType(inner), [inner]
+    elif kind == "abc-mapping":
+        inner = dict(d)
+
+        class RO(collections.abc.Mapping):
+            def __getitem__(self, key):
+                return inner[key]
+
+            def __iter__(self):
+                return iter(inner)
+
+            def __len__(self):
+                return len(inner)
+        return RO(), [inner]
+    elif kind == "ordered":
+        m = collections.OrderedDict(d)
+    elif kind == "userdict":
+        m = collections.UserDict(d)
+    else:
+        m = dict(d)
+    return m, [m]
+
+
+# ---------------------------------------------------------------------------- the CatalogQuery stream
+class CqWorld(object):
+    """a private catalog whose entries change while ONE CatalogQuery object keeps answering (commands cqset / cqdel /
+    cqindex / cq).  Built the same way twice: once for the implementation's CatalogQuery, once as the reference on
+    which the model's resolved trees are executed."""
+
+    def __init__(self):
+        from hypatia.catalog import Catalog, CatalogQuery
+        self.cat = Catalog()
+        for name in CAT_NAMES:
+            self.cat[name] = self.make(name, KIND[name], 0)
+        self.cq = CatalogQuery(self.cat)
+        self.extra = []
+
+    @staticmethod
+    def doc(row):
+        docid, a, b, k, t, xy = row
+        d = Doc()
+        d.f_a, d.f_b, d.f_k, d.f_t, d.f_x_y, d.f_any = a, b, k, t, xy, t
+        return d
+
+    def make(self, name, kind, variant):
+        """a new index for `name`: variant 0 = the standard documents; variant v = docids shifted by 10 v, contents
+        rotated by v (every answer differs from the one of another variant)"""
+        from hypatia.field import FieldIndex
+        from hypatia.keyword import KeywordIndex
+        from hypatia.text import TextIndex
+        attr = "f_" + name.replace(".", "_")
+        if kind == "field" and KIND[name] != "field":
+            attr = "f_a"
+        elif kind == "keyword" and KIND[name] != "keyword":
+            attr = "f_k"
+        elif kind == "text" and KIND[name] not in ("text",):
+            attr = "f_t"
+        ix = {"field": FieldIndex, "keyword": KeywordIndex, "text": TextIndex}[kind](attr)
+        for i, row in enumerate(DOCS):
+            src = DOCS[(i + variant) % len(DOCS)]
+            ix.index_doc(row[0] + 10 * variant, self.doc((row[0],) + tuple(src[1:])))
+        for docid, v in getattr(self, "extra", []):
+            ix.index_doc(docid, self.doc((docid,) + tuple(DOCS[v % len(DOCS)][1:])))
+        return ix
+
+    def step(self, toks):
+        op = toks[0]
+        if op == "cqset":
+            self.cat[unhx(toks[1])] = self.make(unhx(toks[1]), toks[2], int(toks[3]))
+        elif op == "cqdel":
+            del self.cat[unhx(toks[1])]
+        elif op == "cqindex":
+            self.extra.append((int(toks[1]), int(toks[2])))
+            self.cat.index_doc(int(toks[1]), self.doc((int(toks[1]),) + tuple(DOCS[int(toks[2]) % len(DOCS)][1:])))
+        else:
+            raise ValueError(toks)
+        return "ok"
+
+
 class Impl(object):
     def __init__(self):
         from hypatia.catalog import Catalog
@@ -522,6 +665,8 @@ class Impl(object):
             self.spycat[name] = Spy("s")
         self.last_pre = {}
         self.cur = 0
+        self.world = None
+        self.watch = []
         self.names_of = {}
         for c in (self.cat, self.spycat):
             for name in CAT_NAMES:
@@ -638,7 +783,11 @@ class Impl(object):
             name = unhx(toks[j])
             v, j = self.build_w(toks, j + 1, self.cat)
             d[name] = v
-        return d, j
+        kind = names_kind(toks, self.nnames)
+        self.nnames += 1
+        m, watched = wrap_names(kind, d)
+        self.watch.append((kind, [(w, sorted(w)) for w in watched]))
+        return m, j
 
     # --- commands -------------------------------------------------------------
     def leaves(self, q):
@@ -669,10 +818,52 @@ class Impl(object):
         return "ok " + " ".join(map(str, ["cmp", NAME_OF_CLASS[type(leaf).__name__],
                                           hx(self.index_name(leaf.index))] + self.render(e[1])))
 
+    nnames = 0
+
     def run(self, c):
+        self.nnames = 0
+        self.watch = []
+        out = self.run1(c)
+        for kind, watched in self.watch:
+            if any(sorted(w) != keys for w, keys in watched):
+                out += " NAMES-MUTATED:" + kind
+        return out
+
+    def run1(self, c):
         Q = self.Q
         op = c[0]
         toks = [str(t) for t in c]
+        if op in ("cqset", "cqdel", "cqindex"):
+            if self.world is None:
+                self.world = CqWorld()
+            try:
+                return self.world.step(toks)
+            except Exception as e:
+                return exc_name(e)
+        if op == "cq":
+            # ONE CatalogQuery object answers the expression string (parse_query with its default optimisation inside)
+            if self.world is None:
+                self.world = CqWorld()
+            names, j = self.names(toks, 2)
+            # what a fresh parse_query (default optimisation, like CatalogQuery.query's own) of the string gives on
+            # the catalog as it is now: the model resolves the names in THAT tree (the optimiser is C05's subject)
+            for name, ix in self.world.cat.items():
+                self.names_of[id(ix)] = name
+            try:
+                fresh = Q.parse_query(unhx(toks[j]), self.world.cat)
+                if isinstance(fresh, Q.Query):
+                    self.last_pre[self.cur] = self.show(fresh)
+            except Exception:
+                pass
+            try:
+                f = self.world.cq.query if toks[1] == "q" else self.world.cq
+                num, ids = f(unhx(toks[j]), names=names)
+                ids = list(ids)
+                if num != len(ids):
+                    return "len-mismatch %d %d" % (num, len(ids))
+                return idset(ids)
+            except Exception as e:
+                return exc_name(e)
         if op == "toast":
             s = sx_of(toks[2:])
             src = spell(s, random.Random(int(toks[1])))
@@ -797,6 +988,7 @@ def impl_for(hyp):
 def impl_run(hyp, case):
     im = impl_for(hyp)
     im.last_pre = {}
+    im.world = None
     out = []
     for i, c in enumerate(case["cmds"]):
         im.cur = i
@@ -823,6 +1015,14 @@ def model_cmd(c):
         if m is None:
             return ["synerr", err]
         return ["exec" if op == "exec" else "resolve"] + list(c[1:-1]) + m
+    if op == "cq":
+        return ["cfg", "deferred"]              # answered in post_model (see there)
+    if op == "cqset":
+        return ["cfg", "index", c[1]]
+    if op == "cqdel":
+        return ["cfg", "delindex", c[1]]
+    if op == "cqindex":
+        return ["cfg", "noop"]
     return c
 
 
@@ -863,6 +1063,52 @@ def post_model(hyp, case, mouts, iouts):
         res = core.run_model(head + [l for _, l in deferred])[len(head):]
         for (i, _), r in zip(deferred, res):
             out[i] = r
+    if any(c[0] == "cq" for c in case["cmds"]):
+        # CatalogQuery stream: the model is asked again with the whole stream, each `cq` as the resolution of its
+        # names in the freshly parsed (optimised) tree of that moment, or - when the fresh parse_query raised - as the
+        # model's own parse against the catalog names of that moment
+        head = ["session " + case["session"]] + [" ".join(map(str, x)) for x in case.get("cfg", [])]
+        lines, where = [], []
+        for i, c in enumerate(case["cmds"]):
+            if c[0] == "cq":
+                pre = im.last_pre.get(i)
+                if pre is None:
+                    m, err = module_tokens(unhx(str(c[-1])))
+                    line = ["synerr", err] if m is None else ["resolve"] + list(c[2:-1]) + m
+                else:
+                    line = ["reruntree", "real", 1] + list(c[2:-1]) + pre.split(" ")
+            elif c[0] in ("cqset", "cqdel", "cqindex"):
+                line = model_cmd(c)
+            else:
+                continue
+            lines.append(" ".join(map(str, line)))
+            where.append(i)
+        res = core.run_model(head + lines)[len(head):]
+        for i, r in zip(where, res):
+            if case["cmds"][i][0] == "cq":
+                m, sep, spec = r.partition(" ## ")
+                out[i] = m.split(" || ")[0] + sep + spec
+    ref = None
+    for i, c in enumerate(case["cmds"]):
+        if c[0] in ("cqset", "cqdel", "cqindex", "cq"):
+            # the reference catalog goes through the same changes; the model's resolved tree is rebuilt as constant
+            # query objects over the reference catalog AS IT IS at this point of the history and executed
+            if ref is None:
+                ref = CqWorld()
+            if c[0] != "cq":
+                try:
+                    ref.step([str(t) for t in c])
+                except Exception:
+                    pass            # the implementation's own answer to this command is compared with "ok"
+                continue
+            m, sep, spec = out[i].partition(" ## ")
+            if m.startswith("ok "):
+                try:
+                    q, j = im.build_w(m.split(" ")[1:], 0, ref.cat)
+                    m = idset(q.execute(optimize=False).ids)
+                except Exception as e:
+                    m = exc_name(e)
+            out[i] = m + sep + spec
     for i, c in enumerate(case["cmds"]):
         if c[0] == "run":
             m, sep, spec = out[i].partition(" ## ")
@@ -1646,7 +1892,62 @@ def make_case(cmds):
     return {"session": "cqe", "cfg": cfg_lines(), "cmds": cmds}
 
 
+CQ_SHARE = 0.06
+
+
+def gen_cq(rng):
+    """ONE CatalogQuery object answers the same expression string(s) before and after what an index name denotes
+    changes: catalog[name] = another index (80% of the same kind, other documents), del catalog[name], the name added
+    again, a document indexed through the catalog.  Every answer is the model's resolved tree of THAT moment's catalog
+    executed on a reference catalog that went through the same changes (a fresh parse, in effect)."""
+    s = gen_named_sx(rng, True) if rng.random() < 0.5 else gen_sx(rng, rng.choice([0, 1, 1, 2]), True)
+    srcs = [spell(s, random.Random(rng.randrange(1 << 30)))]
+    if rng.random() < 0.4:
+        srcs.append(spell(gen_named_sx(rng, True), random.Random(rng.randrange(1 << 30))))
+    used = [n for n in CAT_NAMES if any(re.search(r"(?<![\w.])" + re.escape(n) + r"(?![\w.(])", x) for x in srcs)]
+    def gen_cq_names():
+        if rng.random() < 0.35:
+            return gen_names(rng, True, drop=0.0, nonames=0.0)
+        # every name an int (lst / tup: ints): field comparisons run instead of raising TypeError on str < int
+        d = [(n, [ctok(rng.randrange(10))]) for n in ["x", "y", "z", "foo", "bar", "a", "any", "_p", "é"]]
+        d.append(("lst", ["L", 2, ctok(rng.randrange(10)), ctok(rng.randrange(10))]))
+        d.append(("tup", ["T", 2, ctok(rng.randrange(10)), ctok(rng.randrange(10))]))
+        out = [len(d)]
+        for n, v in d:
+            out += [hx(n)] + v
+        return out
+    names = gen_cq_names()
+    cmds = []
+
+    def ask():
+        for x in srcs:
+            if x is srcs[0] or rng.random() < 0.7:
+                cmds.append(["cq", rng.choice(["q", "c"])] + names + [hx(x)])
+    ask()
+    present = set(CAT_NAMES)
+    variant = 0
+    for step in range(rng.randrange(2, 6)):
+        n = rng.choice(used) if used and rng.random() < 0.85 else rng.choice(CAT_NAMES)
+        r = rng.random()
+        if n in present and r < 0.3:
+            cmds.append(["cqdel", hx(n)])
+            present.discard(n)
+        elif r < 0.9 or n not in present:
+            variant += 1
+            kind = KIND[n] if rng.random() < 0.8 else rng.choice(["field", "keyword", "text"])
+            cmds.append(["cqset", hx(n), kind, variant])
+            present.add(n)
+        else:
+            cmds.append(["cqindex", 100 + step, rng.randrange(6)])
+        if rng.random() < 0.15:
+            names = gen_cq_names()
+        ask()
+    return make_case(cmds)
+
+
 def gen(rng, tier, idx):
+    if rng.random() < CQ_SHARE:
+        return gen_cq(rng)
     typed = rng.random() < 0.45
     s = gen_sx(rng, rng.choice([0, 1, 2, 2, 3]), typed)
     st = sx_tokens(s)
@@ -1704,7 +2005,7 @@ def classify(case, i, impl, model, spec):
     if c[0] == "parse" and spec == "reject" and model.startswith("ok"):
         if impl == model or impl.startswith("err "):
             return "D11"
-    if c[0] in ("exec", "run", "rerun") and spec == "reject" and not model.startswith("err "):
+    if c[0] in ("exec", "run", "rerun", "cq") and spec == "reject" and not model.startswith("err "):
         return "D11"        # the parsed object is not a query tree over values; `parse` on the same text compares it
     return None
 
@@ -1742,6 +2043,8 @@ def d11_kind(impl):
 def nontrivial(case, outs):
     ok = any(c[0] == "parse" and (o.startswith("ok and") or o.startswith("ok or")) for c, o in zip(case["cmds"], outs))
     bad = any(c[0] == "parse" and o.startswith("err") for c, o in zip(case["cmds"], outs))
+    if case["cmds"] and case["cmds"][0][0] == "cq":
+        return len({o for c, o in zip(case["cmds"], outs) if c[0] == "cq"}) >= 2
     return ok and bad
 
 
@@ -1749,8 +2052,24 @@ def features(case, outs):
     f = []
     cmds = case["cmds"]
     first_parse = True
+    phase = "initial"
+    prev_answer = {}
+    if cmds and cmds[0][0] == "cq":
+        f.append("stream:catalogquery")
     for c, o in zip(cmds, outs):
         op = c[0]
+        npos = {"exec": 1, "run": 1, "subst": 1, "cq": 2, "rerun": 4}.get(op)
+        if npos is not None and str(c[npos]) != "nonames":
+            f.append("names-mapping:" + names_kind(c, 0))
+        if op in ("cqset", "cqdel", "cqindex"):
+            phase = {"cqdel": "after-del", "cqindex": "after-index_doc"}.get(op) or (
+                "after-replace-same-kind" if c[2] == KIND[unhx(str(c[1]))] else "after-replace-other-kind")
+            f.append("cq-step:" + phase)
+        elif op == "cq":
+            f.append("cq:%s:%s" % (phase, o if o.startswith("err") else "empty" if o == "{}" else "ids"))
+            if c[-1] in prev_answer and phase != "initial":
+                f.append("cq:%s:%s" % (phase, "answer-changed" if prev_answer[c[-1]] != o else "answer-same"))
+            prev_answer[c[-1]] = o
         if op == "parse":
             kind = "spelled" if first_parse else "mutated"
             first_parse = False
@@ -1976,7 +2295,10 @@ RULE = ("each case = one generated spelling s (12 comparators, ranges, and/or/no
         "type-appropriate for a real catalog) printed with random parenthesisation/white space/literal styles; "
         "commands: toast (real ast.parse vs Lean toAst), tree (hand-built vs Sx.tree), rt (parse_query vs hand-built "
         "by the harness' renderer and by hypatia's ==), parse, exec with random names on spy indexes, run on a real "
-        "catalog, rerun (ONE parsed object - default optimisation and optimize_query=False - executed 2-3 times with "
+        "catalog (names mappings of 12 types incl. defaultdict / Counter / __missing__ / ChainMap / proxy / abc Mapping, "
+        "unchanged afterwards), 6% of the cases a CatalogQuery stream (ONE CatalogQuery object answers the same 1-2 "
+        "strings before and after catalog[name] = another index / del catalog[name] / re-adding / index_doc), "
+        "rerun (ONE parsed object - default optimisation and optimize_query=False - executed 2-3 times with "
         "different names on spy indexes and the real catalog; 60% of the cases add a spelling with >= 2 distinct Names in "
         "one comparator: a == x or a == y, a != x and a != y, any/all of lists/tuples/nested lists, ranges), "
         "2-4 token-level mutations (delete/duplicate/swap/replace/insert) of the string through the real "
